@@ -1,8 +1,8 @@
 (* C08/Props.v — the property theorems, nothing else.
-   Model: C08/Model.v.  Proofs: Frame.v, PassA.v, PassB.v, PassC.v, PassD.v. *)
+   Model: C08/Model.v.  Proofs: Frame.v, PassA.v, PassB.v, PassC.v, PassD.v, Chunk.v, Live.v. *)
 From Coq Require Import List NArith ZArith Bool.
 Import ListNotations.
-Require Import Base.Wire Base.PyStr C08.Model C08.Frame C08.PassA C08.PassB C08.PassC C08.PassD.
+Require Import Base.Wire Base.PyStr C08.Model C08.Frame C08.PassA C08.PassB C08.PassC C08.PassD C08.Chunk C08.Live.
 
 (* For every configuration, every state satisfying the invariant (in particular
    the state right after a reset) and EVERY sequence of server messages
@@ -77,6 +77,89 @@ Theorem C08_echo_only_ends :
                 (start c) [cap [s_LS; s_echo]]) = [GReq [] [s_echo] []; GEnd 1 [] false; Send s_CAP [s_END]].
 Proof. exact echo_only_ends. Qed.
 Print Assumptions C08_echo_only_ends.
+
+(* The chunking of a SASL client response (ircutils.authenticate_generator =
+   Model.auth_gen, used by sendSaslString), for EVERY string: the chunks are
+   init ++ [last] where every chunk of init is exactly AUTHENTICATE_CHUNK_SIZE
+   long ("more follows"), last is shorter, and either last = "+" and init
+   concatenates to the string, or last is non-empty and init ++ [last]
+   concatenates to it.  The tie: the loop is pinned by the table extractor and
+   auth_gen is run against the real function on every length 0..1300. *)
+Theorem C08_sasl_chunking : forall s, chunking s (auth_gen s).
+Proof. exact auth_gen_chunking. Qed.
+Print Assumptions C08_sasl_chunking.
+
+(* hence a server always sees the end of a response: full chunks, then exactly one final chunk *)
+Theorem C08_sasl_payload_ends : forall s, payload (auth_gen s).
+Proof. exact auth_gen_payload. Qed.
+Print Assumptions C08_sasl_payload_ends.
+
+(* ---- liveness: "against any protocol-conformant server the bot ends up
+   connected or deliberately aborts rather than waiting forever" ----
+   Live.v defines the conformant server: [answers cap o r] = r is a conformant
+   answer to the bot's output o (CAP LS -> any multi-line reply ending in a
+   final LS line; CAP REQ :line -> ACK or NAK of exactly that line;
+   AUTHENTICATE MECH -> AUTHENTICATE + | 904 | 908 then 904; the final chunk of
+   a response -> 903 | 904; AUTHENTICATE * -> 906; CAP END -> a welcome burst
+   ending in 376 | 422; a server without CAP answers only USER, with the welcome
+   burst); a strategy maps the bot's output batches so far to the next messages
+   and is conformant if every batch is answered that way; [game c sigma k] runs
+   bot and server in lock step for k rounds from the start of a connection;
+   [finished] = CONNECTED, CONNECTED_SASL, or a Reconnect/Die was emitted.
+
+   Full statement (C08_liveness), with rounds c = 2 * length (c_mechs c) + 3:
+     forall c sigma, cfg_ok c -> conformant sigma ->
+       exists k, k <= rounds c /\ finished (game c sigma k)
+   where cfg_ok c: the wanted capabilities are tokens, the mechanisms are
+   plain/external and the credential chunk lists are [payload]s (auth_gen, see
+   C08_sasl_payload_ends).  As stated it is FALSE for the pinned code when
+   sasl.required is set and every mechanism fails (finding C08.F25, witness
+   below).  PROVED so far: the clause for every configuration that does not
+   want 'sasl' (no usable credentials), any capability set, any conformant
+   strategy, within 3 rounds (measure: LS reply -> answers to CAP REQ -> welcome
+   burst); PARTIAL (C08_liveness_partial, not proved): configurations with SASL
+   mechanisms, where the measure is 2 * (mechanisms left) + 3; they are
+   exercised by the harness with the same strategy definition, and three
+   instances are checked below. *)
+Theorem C08_liveness_nosasl :
+  forall c sigma, nosasl c -> conformant sigma ->
+  exists k, (k <= 3)%nat /\ finished (game c sigma k).
+Proof. intros c sigma Hn Hc. exact (liveness_nosasl c Hn sigma Hc). Qed.
+Print Assumptions C08_liveness_nosasl.
+
+(* the executable strategies the harness drives the real Irc object with are conformant: the
+   hypothesis of the theorem is what the stall oracle runs *)
+Theorem C08_strategy_conformant : forall v choices, conformant (strategy v choices).
+Proof. exact strategy_conformant. Qed.
+Print Assumptions C08_strategy_conformant.
+
+(* non-vacuity: the pinned REQUEST_CAPABILITIES satisfies the hypothesis *)
+Theorem C08_liveness_hypothesis_met : nosasl cfg_nosasl.
+Proof. exact cfg_nosasl_ok. Qed.
+Print Assumptions C08_liveness_hypothesis_met.
+
+(* instances: ACK everything + SASL PLAIN succeeds (5 rounds); NAK everything / every mechanism fails;
+   no CAP support; the pinned capability set against the three servers: CONNECTED, nothing dropped *)
+Theorem C08_liveness_witnesses :
+  connected_in (cfg_plain true) (strategy srv_all []) 5 = true /\
+  connected_in (cfg_plain true) (strategy srv_all (repeat 1%N 40)) 4 = true /\
+  connected_in (cfg_plain true) (strategy (Srv false [] true) []) 1 = true /\
+  connected_in cfg_nosasl (strategy srv_all []) 3 = true /\
+  connected_in cfg_nosasl (strategy srv_all (repeat 1%N 40)) 3 = true /\
+  connected_in cfg_nosasl (strategy (Srv false [] false) []) 1 = true.
+Proof. exact liveness_witnesses. Qed.
+Print Assumptions C08_liveness_witnesses.
+
+(* the full statement refuted on the pinned code (finding C08.F25): sasl.required, the server ACKs
+   'sasl' and fails PLAIN with 904: INIT_SASL, nothing dropped, the server has nothing left to answer,
+   and the game does not move any more *)
+Theorem C08_liveness_required_refuted :
+  let sigma := strategy srv_all [0;0;0;0;0;1]%N in
+  let g := game cfg_required1 sigma 3 in
+  fsm (fst g) = INIT_SASL /\ existsb (existsb is_abort) (snd g) = false /\ sigma (snd g) = [] /\
+  game cfg_required1 sigma 7 = (fst g, [] :: [] :: [] :: [] :: snd g).
+Proof. exact liveness_required_stuck. Qed.
+Print Assumptions C08_liveness_required_refuted.
 
 (* After a reset the capability and SASL state is the initial one ... *)
 Theorem C08_reset_fresh :
